@@ -151,6 +151,11 @@ type Engine struct {
 	snapDone chan struct{}   // channel to signal snapshot compactions to stop
 	snapWG   *sync.WaitGroup // waitgroup for running snapshot compactions
 
+	// snapshotRetry is true while a cache snapshot that could not be written is retained by the cache
+	// for a retry; snapshotRetrySegments are the WAL segments that were closed when it was taken.
+	snapshotRetry         bool
+	snapshotRetrySegments []string
+
 	id           uint64
 	path         string
 	sfile        *tsdb.SeriesFile
@@ -1969,6 +1974,14 @@ func (e *Engine) WriteSnapshot() (err error) {
 			return
 		}
 
+		// A snapshot that failed to be written is retried by the cache as it was taken, without
+		// the writes accepted since then.  Those writes live in the hot cache and in WAL segments
+		// closed after the first attempt, so only the segments of the first attempt may be removed
+		// once the snapshot is on disk.
+		if e.snapshotRetry {
+			segments = e.snapshotRetrySegments
+		}
+
 		return
 	}()
 
@@ -2027,6 +2040,15 @@ func (e *Engine) CreateSnapshot(skipCacheOk bool) (string, error) {
 // writeSnapshotAndCommit will write the passed cache to a new TSM file and remove the closed WAL segments.
 func (e *Engine) writeSnapshotAndCommit(log *zap.Logger, closedFiles []string, snapshot *Cache) (err error) {
 	defer func() {
+		e.mu.Lock()
+		e.snapshotRetry = err != nil
+		if err != nil {
+			e.snapshotRetrySegments = closedFiles
+		} else {
+			e.snapshotRetrySegments = nil
+		}
+		e.mu.Unlock()
+
 		if err != nil {
 			e.Cache.ClearSnapshot(false)
 		}
